@@ -14,7 +14,9 @@ RULE = ("MAF texts (header pragmas, column line, 0-7 data lines) read through Ma
         "order, then optionally one descent injected at every position (swap / one component lowered: 10 -> 9, "
         "chr10 -> chr2, barcode), plus boundary (empty, single record, all ties) and adversarial streams "
         "(duplicate or invalid sort.order pragmas, unlisted chromosome, non-numeric position, a short line "
-        "giving an empty record); observed: records yielded (their accessor values) and how the loop ended; "
+        "giving an empty record); contig lists of 4-6 and of 25-30 names; for a share of the cases the same data "
+        "under a header with a different contig list (reversed / rotated) is read first in the same interpreter "
+        "(\"warm\"); observed: records yielded (their accessor values) and how the loop ended; "
         "non-trivial = at least two records in the file and a sortable order declared or at least one record "
         "yielded; distinct by hash of the case")
 ASSUMPTIONS = [
@@ -149,7 +151,17 @@ def _gen_one(rng):
     first_ct = next((l.split(" ", 1)[1].split(",") for l in header if l.startswith("#contigs ")), None)
     declared = [first_so, first_ct]
     colnames = C.GDC_NAMES if typed else [nm for nm, _ in names] + ["Other"]
-    return {"stream": stream, "typed": typed, "header": header, "declared": declared, "names": colnames, "rows": descs}
+    warm = None
+    if declared[1] and len(declared[1]) > 1 and declared[0] in ("Coordinate", "BarcodesAndCoordinate") and rng.random() < 0.35:
+        w = list(declared[1])
+        if rng.random() < 0.5:
+            w.reverse()
+        else:
+            k = rng.randrange(1, len(w))
+            w = w[k:] + w[:k]
+        warm = w
+    return {"stream": stream, "typed": typed, "header": header, "declared": declared, "names": colnames, "rows": descs,
+            "warm": warm}
 
 
 def generate(rng, n):
@@ -180,6 +192,17 @@ def corpus():
         _ucase(["#sort.order Unsorted"], ["Unsorted", None], [["chr2", "9", "9"], ["chr1", "10", "10"]]),
         _ucase(["#sort.order Karyotypic", "#sort.order Coordinate"], ["Coordinate", None], [["chr2", "9", "9"], ["chr1", "10", "10"]]),
         _ucase([], [None, None], [["chr2", "9", "9"], ["chr1", "10", "10"]]),
+        # two-digit contig ranks: chr3 before chr11 is sorted, chr11 before chr3 is a descent
+        _ucase(["#sort.order Coordinate", "#contigs " + ",".join(C.CHR_LONG)], ["Coordinate", C.CHR_LONG],
+               [["chr2", "5", "5"], ["chr3", "5", "5"], ["chr9", "1", "1"], ["chr10", "1", "1"], ["chr11", "1", "1"], ["chrX", "1", "1"]]),
+        _ucase(["#sort.order Coordinate", "#contigs " + ",".join(C.CHR_LONG)], ["Coordinate", C.CHR_LONG],
+               [["chr2", "5", "5"], ["chr11", "5", "5"], ["chr3", "1", "1"]]),
+        _tcase(["#sort.order BarcodesAndCoordinate", "#contigs " + ",".join(C.LONG)], ["BarcodesAndCoordinate", C.LONG],
+               [dict(chrom="9", start="5", end="5"), dict(chrom="10", start="5", end="5"), dict(chrom="21", start="1", end="1"),
+                dict(chrom="X", start="1", end="1")]),
+        # the same data read first under another contig list in the same interpreter
+        dict(_ucase(["#sort.order Coordinate", "#contigs chr1,chr2,chr10"], ["Coordinate", ["chr1", "chr2", "chr10"]],
+                    [["chr1", "9", "9"], ["chr2", "1", "1"], ["chr10", "1", "1"]]), warm=["chr10", "chr2", "chr1"]),
         # falsy values: contigs "0","1" under a typed scheme (chromosome int 0), by name and by contig rank; position 0 untyped
         _tcase(["#sort.order Coordinate"], ["Coordinate", None],
                [dict(chrom="0", start="5", end="5"), dict(chrom="0", start="7", end="7"), dict(chrom="1", start="1", end="1"),
@@ -232,6 +255,15 @@ def run_impl(case):
     from maflib.reader import MafReader
     from maflib.validation import ValidationStringency
 
+    if case.get("warm"):
+        # the same file under a different contig list is read first (its outcome does not matter)
+        hdr = [l for l in case["header"] if not l.startswith("#contigs ")] + ["#contigs " + ",".join(case["warm"])]
+        try:
+            for _ in MafReader(lines=iter(hdr + file_lines(case)[len(case["header"]):]),
+                               validation_stringency=ValidationStringency.Silent):
+                pass
+        except Exception:
+            pass
     reader = MafReader(lines=iter(file_lines(case)), validation_stringency=ValidationStringency.Silent)
     echo, end = [], None
     try:
@@ -289,8 +321,9 @@ def classify(case, obs):
         return case["stream"] + "/error"
     order = case["declared"][0]
     o = {"Coordinate": "C", "BarcodesAndCoordinate": "B"}.get(order, "nosort")
-    return "%s/%s/%s/contigs=%s/%s" % (case["stream"], "typed" if case["typed"] else "untyped", o,
-                                      "yes" if case["declared"][1] else "no",
+    nc = len(case["declared"][1] or [])
+    return "%s/%s/%s/contigs=%s%s/%s" % (case["stream"], "typed" if case["typed"] else "untyped", o,
+                                      "no" if nc == 0 else ("short" if nc <= 10 else "long"), "+warm" if case.get("warm") else "",
                                       "all" if obs["end"] is None else "stopped")
 
 
